@@ -163,6 +163,7 @@ func ruleConfirmCount() *Rule {
 			}
 			out = append(out, freshCounter(p, id, "(*Raft).sendAppendEntriesToPeers", "(*Raft).sendAppendEntries", 2)...)
 			out = append(out, counterNotForwarded(p, id, "(*Raft).sendAppendEntries", 2)...)
+			out = append(out, spawnOnlyForOthers(p, id, "(*Raft).sendAppendEntriesToPeers", root)...)
 			return out
 		},
 	}
@@ -589,4 +590,46 @@ func ruleLeaseBorn() *Rule {
 			return out
 		},
 	}
+}
+
+// spawnOnlyForOthers checks, with the interpreter, that every `go target(id, ...)` in spawner is reached only with
+// id ≠ r.id: a node that sends a request to itself answers it itself and counts its own reply in the round, on top of
+// the 1 the counter starts with.
+func spawnOnlyForOthers(p *Program, rule, spawnerName string, target *ssa.Function) []Obligation {
+	spawner := p.Func(spawnerName)
+	if spawner == nil {
+		return missing(rule, spawnerName)
+	}
+	fr := NewRootFrame(spawner)
+	var keys []string
+	for _, b := range spawner.Blocks {
+		for _, in := range b.Instrs {
+			if g, ok := in.(*ssa.Go); ok && g.Common().StaticCallee() == target {
+				keys = append(keys, p.Canon(fr, g.Common().Args[1]).S)
+			}
+		}
+	}
+	if len(keys) == 0 {
+		return missing(rule, "go "+FuncName(target)+" in "+spawnerName)
+	}
+	var atoms []*Atom
+	idx := map[string]int{}
+	for _, k := range keys {
+		if _, ok := idx[k]; !ok {
+			idx[k] = len(atoms)
+			atoms = append(atoms, CmpAtom("id?self", k, "r.id"))
+		}
+	}
+	sp := NewSpace(atoms...)
+	a := NewAnalysis(p, sp)
+	a.Hook = func(a *Analysis, f *Frame, in ssa.Instruction, st State) State {
+		if g, ok := in.(*ssa.Go); ok && g.Common().StaticCallee() == target && f.Parent == nil {
+			n := instrOrdinal(in, func(x ssa.Instruction) bool { gg, ok := x.(*ssa.Go); return ok && gg.Common().StaticCallee() == target })
+			a.Observe("go "+FuncName(target)+ordSuffix(n)+" in "+spawnerName+" is spawned for other nodes only", f, in, st).Extra["key"] = p.Canon(f, g.Common().Args[1]).S
+		}
+		return st
+	}
+	a.Run(spawner, nil)
+	return evalObs(a, rule, a.SortedObs(), func(o *Observation, pt int) bool { return sp.Val(pt, idx[o.Extra["key"]]) != EQ }, nil,
+		"a request is never sent to the node itself (its own reply would be counted in the round)")
 }
